@@ -46,6 +46,11 @@ def enum_cases(tier):
 
 def check_pair(a, b, da, db, np, jaccarddist, jaccard, case, strided=False, check_index=True):
 	"""a, b: sorted lists of distinct Python ints that fit da / db."""
+	if (len(a) + 2 * len(b)) % 3 == 0:
+		# the same 64-bit integer types under NumPy's other names (C long long: equal dtype, distinct scalar type object),
+		# as produced by array.array('q'), ctypes buffers or dtype=np.longlong
+		da = {'i8': 'q', 'u8': 'Q'}.get(da, da)
+		db = {'i8': 'q', 'u8': 'Q'}.get(db, db)
 	if strided:
 		bufa = np.zeros(2 * len(a) + 1, dtype=da)
 		bufa[::2][:len(a)] = np.array(a, dtype=da) if a else []
